@@ -220,7 +220,13 @@ func (m *Machine) ActSend(t *rapid.T) {
 	case 3:
 		amt = new(big.Int).Add(new(big.Int).Lsh(big.NewInt(1), 128), big.NewInt(rapid.Int64Range(-1, 1).Draw(t, "around128")))
 	case 4:
-		if bal.Sign() > 0 {
+		if tok == (common.Address{}) && bal.Sign() > 0 {
+			// the native coin also pays the transaction fees of every later step: a tenth of the balance, not all of it
+			amt = new(big.Int).Quo(bal, big.NewInt(10))
+			if amt.Sign() == 0 {
+				amt = big.NewInt(1)
+			}
+		} else if bal.Sign() > 0 {
 			amt = new(big.Int).Add(bal, big.NewInt(rapid.Int64Range(-1, 1).Draw(t, "aroundBalance")))
 			if amt.Sign() <= 0 {
 				amt = big.NewInt(1)
